@@ -27,36 +27,37 @@ type Config struct {
 }
 
 type Exec struct {
-	TemporalHits map[*Temporal]int
-	Prog         *ssa.Program
-	G            *Gen
-	Specs        *SpecDB
-	Cfg          Config
-	Obls         []*Obligation
-	work         []*State
-	loops        map[*ssa.Function]*LoopInfo
-	entry        *ssa.Function
-	entryCt      *Contract
-	paths        int
-	pathCap      bool
-	globals      map[*ssa.Global]*Object
-	textOrd      map[*ssa.Function]map[ssa.Instruction]string
-	stateN       int
-	Notes        map[string]int
-	endStates    int
-	Unsupported  map[string]int
-	curNonNil    bool
-	seq          int
-	identObj     map[string]*Object
-	vtxType      types.Type
-	walkerOf     map[*Object]*Object
-	walkerSig    map[*Object]*Object
-	txnDB        map[*Object]*Object
-	itemOf       map[*Object]itemRef
-	entryKV      map[*Object][2]*Term
-	repoSentinel map[int64]bool
-	ifaceN       int64
-	subCollect   *[]Value
+	UsedContracts map[string]*Contract // contracts applied at call sites (modular use) in this run
+	TemporalHits  map[*Temporal]int
+	Prog          *ssa.Program
+	G             *Gen
+	Specs         *SpecDB
+	Cfg           Config
+	Obls          []*Obligation
+	work          []*State
+	loops         map[*ssa.Function]*LoopInfo
+	entry         *ssa.Function
+	entryCt       *Contract
+	paths         int
+	pathCap       bool
+	globals       map[*ssa.Global]*Object
+	textOrd       map[*ssa.Function]map[ssa.Instruction]string
+	stateN        int
+	Notes         map[string]int
+	endStates     int
+	Unsupported   map[string]int
+	curNonNil     bool
+	seq           int
+	identObj      map[string]*Object
+	vtxType       types.Type
+	walkerOf      map[*Object]*Object
+	walkerSig     map[*Object]*Object
+	txnDB         map[*Object]*Object
+	itemOf        map[*Object]itemRef
+	entryKV       map[*Object][2]*Term
+	repoSentinel  map[int64]bool
+	ifaceN        int64
+	subCollect    *[]Value
 }
 
 func NewExec(prog *ssa.Program, specs *SpecDB, cfg Config) *Exec {
